@@ -370,12 +370,21 @@ impl<'a, const D: usize> Rdp<'a, D> {
             return;
         }
 
-        let sp = SurfacePoint::new_normalize(self.points[i0], self.points[i1] - self.points[i0]);
+        // Distance to the segment between the two kept points (not to the infinite line through
+        // them), which is also well defined when the two points coincide (closed curves)
+        let p0 = self.points[i0];
+        let chord = self.points[i1] - p0;
+        let chord_sq = chord.norm_squared();
         let mut max_dist = 0.0;
         let mut max_i = 0;
 
         for i in i0 + 1..i1 {
-            let dist = (sp.projection(&self.points[i]) - self.points[i]).norm();
+            let t = if chord_sq > 0.0 {
+                ((self.points[i] - p0).dot(&chord) / chord_sq).clamp(0.0, 1.0)
+            } else {
+                0.0
+            };
+            let dist = (p0 + chord * t - self.points[i]).norm();
             if dist > max_dist {
                 max_dist = dist;
                 max_i = i;
